@@ -170,6 +170,9 @@ def run_once_serial(cfg, *, max_workers=None, prelude=False, around_run=None, wa
             U.WORLD.reset(epoch=7)
             labtech.Lab(storage=st0, runner_backend='serial', notebook=False, context=ctx).run_tasks(
                 list(built.canon), disable_progress=True, disable_top=True)
+        except BaseException:  # noqa
+            # whatever made this fault-free warm-up run fail shows in the measured run below
+            pass
         finally:
             st0.release()
     storage = MemStorage()
